@@ -59,6 +59,10 @@ def register(w):
         c.ens(f"implies({T} == {S}, result == ite({S}.parent != None, {S}.parent, root))", label="self-transition-domain-is-parent")
         c.ens(f"implies({T} != {S} and anc({S}, {T}), result == ite({T}.parent != None, {T}.parent, root))", label="target-is-ancestor-domain-is-its-parent")
         c.ens(f"implies(not anc({S}, {T}), forall[Node](lambda k: implies(anc({S}, k) and anc({T}, k), anc(result, k))))", label="otherwise-least-common-ancestor")
+        # proof hints: the set algebra in terms of `anc` (so that no array extensionality reasoning is needed later)
+        c.after("common_ancestors = source_ancestors & target_ancestors",
+                f"assert forall[Node](lambda k: implies(anc({S}, k) and anc({T}, k), k in common_ancestors), lambda k: (anc({S}, k), anc({T}, k)))",
+                "assert root in common_ancestors")
 
 
     A = "self._active_state_nodes"
